@@ -55,7 +55,7 @@ PARTIAL = ['token_case_rule holds only for tokens without a backslash at brace l
            'more than 100 nested braces in a token that does not start with a letter make Person() raise BibTeXError (a pybtex error, parse_name_guard): '
            'parse_name_total says "no foreign exception, no divergence" for every string, parse_name_ok gives success for every string with <= 100 opening braces',
            'that split_tex_string splits exactly at the brace-level-0 separators is NOT proved for the model (proved: only separator characters are dropped '
-           '(chars_preserved), braced groups are never split (braced_groups_atomic)); it is checked by the oracle with an independent tokenizer on every generated '
+           '(chars_preserved), braced groups are never split (braced_groups_atomic), every level-0 whitespace character splits (level0_whitespace_splits)); it is checked by the oracle with an independent tokenizer on every generated '
            'string whose braces are all closed; for strings with an unclosed group the code splits at inner braces and the oracle only demands conservation of characters']
 
 def describe(fn, a):
